@@ -363,8 +363,13 @@ def _is_safe_output_type_change(
             and _is_safe_output_type_change(old_type, new_type.type)
         )
     elif isinstance(old_type, ListType):
+        # Items of an output list must not become less strict ([T!] -> [T]
+        # exposes clients to null items). Changes to the items which are not
+        # also safe as input changes are still reported, erring on the side of
+        # safety.
         return (
             isinstance(new_type, ListType)
+            and _is_safe_output_type_change(old_type.type, new_type.type)
             and _is_safe_input_type_change(old_type.type, new_type.type)
         ) or (
             isinstance(new_type, NonNullType)
